@@ -284,6 +284,33 @@ CLAIMED = {
              "(subprocess_run) is not started - only the sharing of the device variables is exercised; three fixed device classes.",
         technique="Coq proof over declaration lists (shared with C08) + the real ProcessSyncGroup across a real spawned process",
         ref="7/C29"),
+    "C22": dict(
+        text="Theorems C22_never_drops, C22_foreign_unchanged, C22_unregistered_group (for ALL frames and counter maps: no frame is dropped; non-EtherCAT frames, "
+             "frames not starting with the identification datagram and frames of at most 30 bytes pass unchanged; frames of a group without registered "
+             "program are never handed to a program and reach user space with the ethertype of the identification datagram) and C22_no_two_bypasses (after a "
+             "frame went straight back to the bus, the next frame of the group - whatever its index - is handed to the program or to user space). Tie: the REAL "
+             "dispatcher bytecode (EtherXDP.program) is executed in the kernel-validated Coq ISA model on foreign frames and group frames of every relation "
+             "between index and loop counter (incl. wrap-around at 2**32), registered or not; frame, counter map and action must equal the model's; a bounded "
+             "exploration of frame histories (deliveries in any order, losses, injections, at most three in flight) runs on the model and reports the longest run "
+             "of frames without the program.",
+        note=TB + "Partial: the clause 'no more than two consecutive frames pass without running the group's program' is proved only in the form "
+             "C22_no_two_bypasses; counting frames handed to user space as well, the exploration finds a history with three after three injections in a row "
+             "(inject x3, deliver 0: bus, deliver 0: program, deliver 0: bus, deliver 3: program, deliver 2: user space, inject, deliver 0: bus, deliver 4: "
+             "user space) - whether the clause counts those is ambiguous, so it is reported in the evidence, not raised. The random dropper (rate > 0) is off.",
+        technique="Coq proof over all frames / counters + execution of the real dispatcher bytecode in a kernel-validated ISA model + bounded history exploration (support only)",
+        ref="7/C22"),
+    "C21": dict(
+        text="Theorems C21_disabled_untouched, C21_activate_one, C21_activate_frame, C21_errors_bound (the group's program re-enables exactly the write "
+             "datagrams: command byte written back, working counter cleared, one error per wrong counter, nothing else changes, nothing at all with output "
+             "disabled), C21_dispatcher_enables_nothing (the dispatcher writes only frame index and ethertype) and C21_no_enabled_bypass: in EVERY history of a "
+             "group's frames - any number in flight, deliveries in any order, losses, injections of sterile frames - a frame that goes back to the bus without "
+             "the group's program has no enabled write datagrams (invariant: enabled frames carry an odd index, bypassing frames an even one; induction over "
+             "event lists). Tie: the REAL sterile() and the REAL generated FastSyncGroup program (kernel-validated Coq ISA model) on frames with right and wrong "
+             "working counters, output enabled and disabled, against the model; the counter logic against the real dispatcher bytecode in C22's check.",
+        note=TB + "Partial: the abstraction of a frame to (index, enabled) and of the program run to 'enables the writes and gets the new index' is tied to the "
+             "code only through the two correspondences; the devices' own output computation in that pass is C19 / C26.",
+        technique="Coq invariant proof over all frame histories + execution of the real group program and dispatcher bytecode in a kernel-validated ISA model",
+        ref="7/C21"),
 }
 
 REASONS_NOT_YET = "no check built yet in this round (planned, see DESIGN.md section 7); nothing is claimed for it"
